@@ -53,6 +53,8 @@ HasQuirk(w) ==
     [] w[1] = "tag"   -> HasQuirk(w[3])
     [] w[1] = "map1"  -> HasQuirk(w[2]) \/ HasQuirk(w[3])
     [] w[1] = "nodearr" -> HasQuirk(w[2]) \/ \E x \in w[3] : HasQuirk(x[2])
+    [] w[1] = "mapn"  -> \E x \in w[2] : HasQuirk(x[1]) \/ HasQuirk(x[2])
+    [] w[1] = "arr"   -> \E i \in 1..Len(w[2]) : HasQuirk(w[2][i])
     [] OTHER -> FALSE
 RECURSIVE DecodeU(_), DecodeItems(_)
 \* decode every <<key, item>> of a node array; Err if one fails
